@@ -21,12 +21,13 @@ MCServices == {
   Svc("Sf", 6, Obj("RQ_Sf", <<49>>, 2, -1, {}), <<Obj("PR_Sf", <<113>>, 2, -1, {})>>, <<>>),
   Svc("Sg", 7, Obj("RQ_Sg", <<34>>, 2, -1, {}), <<Obj("PR_Sg", <<98>>, 2, -1, {})>>, <<>>),
   Svc("Sh", 8, Obj("RQ_Sh", <<46, 241>>, 1, -1, {}), <<Obj("PR_Sh", <<110, 241>>, 1, -1, {})>>, <<>>),
+  Svc("Sj", 10, Obj("RQ_Sj", <<0>>, 1, -1, {}), <<Obj("PR_Sj", <<64>>, 1, -1, {})>>, <<>>),     \* the service identifier 00
   Svc("Si", 9, Obj("RQ_Si", <<133>>, 1, -1, {}), <<Obj("PR_Si", <<197>>, 1, -1, {})>>,
       <<Obj("NR_Si", <<127, 133>>, 1, 2, {18}), Obj("NR_Si_2", <<127, 133>>, 1, 2, {34})>>)
 }
 \* global negative responses: with the echo of the request's first byte, and without
 MCGnrs == {<<>>, <<[name |-> "GNR1", echo |-> TRUE]>>, <<[name |-> "GNR2", echo |-> FALSE]>>}
-MCBytes == {16, 34, 241, 144, 49, 98, 127, 5, 46, 133}
+MCBytes == {16, 34, 241, 144, 49, 98, 127, 5, 46, 133, 0}
 
 AllMsgs == Messages \cup OwnMessages(layer)
 OwnMsg(o) == o.pre \o [k \in 1..o.n |-> IF o.nrcpos = Len(o.pre) + k - 1 THEN (CHOOSE v \in o.nrcs : TRUE) ELSE 5]
